@@ -1,55 +1,193 @@
-"""bv2int.py - translate z3 bit-vector / Bool terms into integer arithmetic with explicit mod 2^w.
+"""bv2int.py - translate z3 bit-vector / FP / Bool terms into integer (and real) arithmetic.
 
-Every BV term of width w becomes an Int term constrained to [0, 2^w).  Wrap-around is kept explicitly
-(`mod 2^w`), so this is not "mathematical integers standing in for machine words".  Floating-point
-operations are deterministic functions of their operands' bit patterns and are abstracted as
-uninterpreted functions over those (sound for proving; a counterexample may be spurious and must be
-replayed), with one exact rule: fp.to_sbv(RTZ, to_fp_signed(RNE, X)) = X when |X| <= 2^53.
+A BV term of width w is represented *lazily* as an Int expression E together with a conservative interval [lo, hi]
+such that  value(term) == E (mod 2^w).  Ring operations (+, -, *, shl-by-constant, truncation) need no reduction at
+all; only operations that depend on the canonical value (division, comparison, extension, conversion to FP, shifts
+right) normalise, and the interval tells when the normalisation is the identity.  Where it is not, `mod 2^w` is kept
+explicitly - this is never "mathematical integers standing in for machine words".
 
-Used where bit-blasting a 64-bit division by a symbolic divisor does not finish (C19).
+Floating point, two modes:
+ * uninterpreted (default): an FP operation is a deterministic function of its operands' bit patterns and becomes an
+   uninterpreted function of them (sound for unsat; a sat answer may be spurious and must be replayed).  int->fp
+   conversion is a function of the integer *value* (shared by the signed and the unsigned instruction), and
+   fp.to_sbv(RTZ, int_to_fp(X)) = X for |X| < 2^53.
+ * exact (exact_fp=True): FP operations become real arithmetic, each with an *exactness obligation* (the real result
+   is an integer of magnitude <= 2^53, hence representable, hence IEEE rounding is the identity) that the caller must
+   discharge under the same path condition; ceil/floor/trunc of a quotient a/b of integers with |a| < 2^52 uses the
+   lemma that RNE(a/b) and a/b have the same integer part (rounding error <= 2^-53 |a/b| < 1/|b| <= distance of a
+   non-integer a/b to the nearest integer).
 """
-import z3
+import z3, fractions, struct
 
 class Untranslatable(Exception): pass
 
 class Tr:
-    def __init__(s):
+    def __init__(s, exact_fp=False, var_ranges=None):
+        s.exact_fp = exact_fp
+        s.oblig = []
         s.cache = {}
         s.vars = {}        # bv var id -> (bvvar, intvar)
-        s.side = []        # range constraints
+        s.side = []
         s.ufs = {}
         s.nfresh = 0
-    def fresh(s, w, hint='t'):
-        s.nfresh += 1
-        v = z3.Int('%s!i%d' % (hint, s.nfresh))
-        s.side.append(z3.And(v >= 0, v < (1 << w)))
-        return v
-    def uf(s, name, nargs):
-        k = (name, nargs)
-        if k not in s.ufs: s.ufs[k] = z3.Function(name, *([z3.IntSort()] * (nargs + 1)))
-        return s.ufs[k]
-    def signed(s, x, w):
-        return z3.If(x >= (1 << (w - 1)), x - (1 << w), x)
-    def wrap(s, x, w):
-        return x % (1 << w)
+        s.var_ranges = var_ranges or {}    # bv var id -> (lo, hi) unsigned bounds taken from the path condition
 
+    # ------------------------------------------------------------------ helpers
+    def uf(s, name, nargs, ret=None):
+        k = (name, nargs)
+        if k not in s.ufs: s.ufs[k] = z3.Function(name, *([z3.IntSort()] * nargs + [ret or z3.IntSort()]))
+        return s.ufs[k]
+    @staticmethod
+    def U(v, w):
+        """canonical unsigned value of lazy (E, lo, hi)"""
+        E, lo, hi = v; M = 1 << w
+        if lo >= 0 and hi < M: return E, lo, hi
+        if lo >= -M and hi < 0: return E + M, lo + M, hi + M
+        if lo >= M and hi < 2 * M: return E - M, lo - M, hi - M
+        return E % M, 0, M - 1
+    @staticmethod
+    def S(v, w):
+        """canonical signed value"""
+        E, lo, hi = v; M = 1 << w; H = M >> 1
+        if lo >= -H and hi < H: return E, lo, hi
+        if lo >= H and hi < M + H: return E - M, lo - M, hi - M
+        if lo >= 0 and hi < M: return z3.If(E >= H, E - M, E), -H, H - 1
+        return ((E + H) % M) - H, -H, H - 1
+
+    # ------------------------------------------------------------------ bit-vectors (lazy)
+    def bvl(s, t):
+        k = t.get_id()
+        r = s.cache.get(k)
+        if r is not None: return r
+        r = s._bvl(t)
+        s.cache[k] = r
+        return r
+    def bv(s, t):
+        """canonical unsigned Int expression (compatibility helper)"""
+        return s.U(s.bvl(t), t.size())[0]
+    def signed(s, e, w):   # compatibility (e is a canonical unsigned expr)
+        return z3.If(e >= (1 << (w - 1)), e - (1 << w), e)
+
+    def _bvl(s, t):
+        w = t.size(); M = 1 << w
+        d = t.decl().kind(); ch = t.children()
+        if z3.is_bv_value(t):
+            v = t.as_long(); return z3.IntVal(v), v, v
+        if z3.is_const(t) and d == z3.Z3_OP_UNINTERPRETED:
+            iv = z3.Int(str(t) + '!int')
+            lo, hi = s.var_ranges.get(t.get_id(), (0, M - 1))
+            s.side.append(z3.And(iv >= lo, iv <= hi)); s.vars[t.get_id()] = (t, iv)
+            return iv, lo, hi
+        if d == z3.Z3_OP_BADD:
+            E, lo, hi = s.bvl(ch[0])
+            for c in ch[1:]:
+                e2, l2, h2 = s.bvl(c); E, lo, hi = E + e2, lo + l2, hi + h2
+            return E, lo, hi
+        if d == z3.Z3_OP_BSUB:
+            (a, la, ha), (b, lb, hb) = s.bvl(ch[0]), s.bvl(ch[1]); return a - b, la - hb, ha - lb
+        if d == z3.Z3_OP_BMUL:
+            E, lo, hi = s.bvl(ch[0])
+            for c in ch[1:]:
+                e2, l2, h2 = s.bvl(c)
+                ps = (lo * l2, lo * h2, hi * l2, hi * h2); E, lo, hi = E * e2, min(ps), max(ps)
+            return E, lo, hi
+        if d == z3.Z3_OP_BNEG:
+            a, la, ha = s.bvl(ch[0]); return -a, -ha, -la
+        if d == z3.Z3_OP_BNOT:
+            a, la, ha = s.U(s.bvl(ch[0]), w); return (M - 1) - a, M - 1 - ha, M - 1 - la
+        if d in (z3.Z3_OP_BUDIV, z3.Z3_OP_BUDIV_I, z3.Z3_OP_BUREM, z3.Z3_OP_BUREM_I):
+            (a, la, ha), (b, lb, hb) = s.U(s.bvl(ch[0]), w), s.U(s.bvl(ch[1]), w)
+            if d in (z3.Z3_OP_BUDIV, z3.Z3_OP_BUDIV_I):
+                if lb > 0: return a / b, la // hb, ha // lb
+                return z3.If(b == 0, z3.IntVal(M - 1), a / b), 0, M - 1
+            if lb > 0: return a % b, 0, min(ha, hb - 1)
+            return z3.If(b == 0, a, a % b), 0, ha
+        if d in (z3.Z3_OP_BSDIV, z3.Z3_OP_BSDIV_I, z3.Z3_OP_BSREM, z3.Z3_OP_BSREM_I):
+            (a, la, ha), (b, lb, hb) = s.S(s.bvl(ch[0]), w), s.S(s.bvl(ch[1]), w)
+            if la >= 0 and lb > 0:
+                if d in (z3.Z3_OP_BSDIV, z3.Z3_OP_BSDIV_I): return a / b, la // hb, ha // lb
+                return a % b, 0, min(ha, hb - 1)
+            absq = z3.If(a >= 0, a, -a) / z3.If(b >= 0, b, -b)
+            q = z3.If((a >= 0) == (b >= 0), absq, -absq)
+            bnd = max(abs(la), abs(ha))
+            if d in (z3.Z3_OP_BSDIV, z3.Z3_OP_BSDIV_I):
+                return (q if (lb > 0 or hb < 0) else z3.If(b == 0, z3.If(a >= 0, z3.IntVal(-1), z3.IntVal(1)), q)), -bnd, bnd
+            r = a - q * b
+            return (r if (lb > 0 or hb < 0) else z3.If(b == 0, a, r)), -bnd, bnd
+        if d == z3.Z3_OP_BSHL and z3.is_bv_value(ch[1]):
+            c = ch[1].as_long()
+            if c >= w: return z3.IntVal(0), 0, 0
+            a, la, ha = s.bvl(ch[0]); return a * (1 << c), la << c, ha << c
+        if d == z3.Z3_OP_BLSHR and z3.is_bv_value(ch[1]):
+            c = ch[1].as_long()
+            if c >= w: return z3.IntVal(0), 0, 0
+            a, la, ha = s.U(s.bvl(ch[0]), w); return a / (1 << c), la >> c, ha >> c
+        if d == z3.Z3_OP_BASHR and z3.is_bv_value(ch[1]):
+            c = min(ch[1].as_long(), w - 1)
+            a, la, ha = s.S(s.bvl(ch[0]), w); return a / (1 << c), la >> c, ha >> c      # Int division with positive divisor is floor
+        if d == z3.Z3_OP_CONCAT:
+            E, lo, hi = z3.IntVal(0), 0, 0
+            for c in ch:
+                a, la, ha = s.U(s.bvl(c), c.size()); k = 1 << c.size()
+                E, lo, hi = E * k + a, lo * k + la, hi * k + ha
+            return E, lo, hi
+        if d == z3.Z3_OP_EXTRACT:
+            hi_, lo_ = t.params()[0], t.params()[1]
+            if lo_ == 0:
+                a, la, ha = s.bvl(ch[0]); return a, la, ha            # congruent modulo 2^w implies congruent modulo 2^(hi+1)
+            a, la, ha = s.U(s.bvl(ch[0]), ch[0].size())
+            return a / (1 << lo_), la >> lo_, ha >> lo_               # still lazy w.r.t. the new (smaller) width
+        if d == z3.Z3_OP_ZERO_EXT: return s.U(s.bvl(ch[0]), ch[0].size())
+        if d == z3.Z3_OP_SIGN_EXT: return s.S(s.bvl(ch[0]), ch[0].size())
+        if d == z3.Z3_OP_ITE:
+            c = s.boolean(ch[0]); (a, la, ha), (b, lb, hb) = s.bvl(ch[1]), s.bvl(ch[2])
+            return z3.If(c, a, b), min(la, lb), max(ha, hb)
+        if d == z3.Z3_OP_BAND and len(ch) == 2 and any(z3.is_bv_value(c) for c in ch):
+            c, x = (ch[0], ch[1]) if z3.is_bv_value(ch[0]) else (ch[1], ch[0])
+            m = c.as_long()
+            a, la, ha = s.U(s.bvl(x), w)
+            if m == M - 1: return a, la, ha
+            if m & (m + 1) == 0:
+                if ha <= m: return a, la, ha
+                return a % (m + 1), 0, m
+            lo_ = (m & -m).bit_length() - 1; hi_ = m.bit_length()
+            if m == ((1 << hi_) - 1) ^ ((1 << lo_) - 1): return ((a / (1 << lo_)) % (1 << (hi_ - lo_))) * (1 << lo_), 0, m
+            raise Untranslatable('bvand with mask %x' % m)
+        if d in (z3.Z3_OP_FPA_TO_SBV, z3.Z3_OP_FPA_TO_UBV):
+            sgn = d == z3.Z3_OP_FPA_TO_SBV
+            rng = (-(1 << (w - 1)), (1 << (w - 1)) - 1) if sgn else (0, M - 1)
+            if s.exact_fp:
+                x = s.fp_val(ch[1])
+                if x[0] == 'q': x = ('i', z3.If(x[1] >= 0, x[1] / x[2], -((-x[1]) / x[2])), int(x[3]) - 1, int(x[4]) + 1)
+                if not (x[2] >= rng[0] and x[3] <= rng[1]):
+                    # the conversion may be out of range: that is itself undefined behaviour, which the IR-level check decides;
+                    # here the value is only meaningful when in range
+                    s.side.append(z3.And(x[1] >= rng[0], x[1] <= rng[1]))
+                return x[1], max(x[2], rng[0]), min(x[3], rng[1])
+            x = ch[1]; xk = x.decl().kind(); xc = x.children()
+            if sgn and xk in (z3.Z3_OP_FPA_TO_FP, z3.Z3_OP_FPA_TO_FP_UNSIGNED) and len(xc) == 2 and z3.is_bv(xc[1]):
+                v = s.S(s.bvl(xc[1]), xc[1].size()) if xk == z3.Z3_OP_FPA_TO_FP else s.U(s.bvl(xc[1]), xc[1].size())
+                if v[1] > -(1 << 53) and v[2] < (1 << 53): return v            # int -> double -> int is the identity below 2^53
+            r = s.uf('fp_to_%sbv%d_%s' % ('s' if sgn else 'u', w, str(ch[0]).replace('()', '')), 1)(s.fp_bits(x))
+            s.side.append(z3.And(r >= rng[0], r <= rng[1]))
+            return r, rng[0], rng[1]
+        if d == z3.Z3_OP_FPA_TO_IEEE_BV:
+            return s.fp_bits(ch[0]), 0, M - 1
+        raise Untranslatable('bv op %s' % t.decl().name())
+
+    # ------------------------------------------------------------------ floating point, uninterpreted mode
     def fp_bits(s, t):
-        """Int encoding (bit pattern, as an uninterpreted function of the operands) of an FP-sorted term"""
         k = ('fp', t.get_id())
         if k in s.cache: return s.cache[k]
-        d = t.decl().kind()
-        ch = t.children()
-        if z3.is_fp_value(t) or z3.is_fprm_value(t):
-            r = z3.IntVal(z3.simplify(z3.fpToIEEEBV(t)).as_long()) if z3.is_fp_value(t) else z3.IntVal(hash(str(t)) % 7)
-        elif d == z3.Z3_OP_FPA_TO_FP and len(ch) == 1 and z3.is_bv(ch[0]):
-            r = s.bv(ch[0])                       # reinterpretation of bits
+        if s.exact_fp: raise Untranslatable('bit pattern of a double needed in exact mode: ' + str(t)[:80])
+        d = t.decl().kind(); ch = t.children()
+        W = t.sort().ebits() + t.sort().sbits()
+        if z3.is_fp_value(t): r = z3.IntVal(z3.simplify(z3.fpToIEEEBV(t)).as_long())
+        elif d == z3.Z3_OP_FPA_TO_FP and len(ch) == 1 and z3.is_bv(ch[0]): r = s.bv(ch[0])
         elif d in (z3.Z3_OP_FPA_TO_FP, z3.Z3_OP_FPA_TO_FP_UNSIGNED) and len(ch) == 2 and z3.is_bv(ch[1]) and z3.is_fprm_value(ch[0]):
-            # integer -> float conversion: a function of the mathematical integer value (same function for the signed
-            # and unsigned instruction), so equal integers convert to equal doubles
-            v = s.bv(ch[1]) if d == z3.Z3_OP_FPA_TO_FP_UNSIGNED else s.signed(s.bv(ch[1]), ch[1].size())
-            r = s.uf('int_to_fp%d_%s' % (t.sort().ebits() + t.sort().sbits(), str(ch[0]).replace('()', '')), 1)(v)
-            w = t.sort().ebits() + t.sort().sbits()
-            s.side.append(z3.And(r >= 0, r < (1 << w)))
+            v = s.S(s.bvl(ch[1]), ch[1].size())[0] if d == z3.Z3_OP_FPA_TO_FP else s.U(s.bvl(ch[1]), ch[1].size())[0]
+            r = s.uf('int_to_fp%d_%s' % (W, str(ch[0]).replace('()', '')), 1)(v)
+            s.side.append(z3.And(r >= 0, r < (1 << W)))
         else:
             args = []
             for c in ch:
@@ -57,86 +195,94 @@ class Tr:
                 elif z3.is_fp(c): args.append(s.fp_bits(c))
                 elif z3.is_bv(c): args.append(s.bv(c))
                 else: raise Untranslatable('fp operand ' + str(c.sort()))
-            name = 'fp_' + t.decl().name().replace('.', '_') + '_%d' % t.sort().sbits()
-            if d in (z3.Z3_OP_FPA_TO_FP, z3.Z3_OP_FPA_TO_FP_UNSIGNED): name += '_from%d' % (ch[-1].size() if z3.is_bv(ch[-1]) else 0)
-            r = s.uf(name, len(args))(*args)
-            w = t.sort().ebits() + t.sort().sbits()
-            s.side.append(z3.And(r >= 0, r < (1 << w)))
+            r = s.uf('fp_' + t.decl().name().replace('.', '_') + '_%d' % t.sort().sbits(), len(args))(*args)
+            s.side.append(z3.And(r >= 0, r < (1 << W)))
         s.cache[k] = r
         return r
 
-    def bv(s, t):
-        k = t.get_id()
+    # ------------------------------------------------------------------ floating point, exact mode
+    # An FP term is translated to ('i', IntExpr, lo, hi)  - an integer-valued double, |value| <= 2^53 by interval -
+    # or ('q', IntExpr a, int b, lo, hi) - the quotient a / b of an integer by a positive integer constant, which may
+    # only be consumed by ceil/floor/trunc (lemma in the module docstring), by a comparison, or by fp.to_sbv.
+    # Integrality and magnitude are established syntactically (interval arithmetic), so no exactness query is needed;
+    # anything that is not provably exact this way is Untranslatable, never approximated.
+    LIM = 1 << 53
+    def fp_val(s, t):
+        k = ('fr', t.get_id())
         if k in s.cache: return s.cache[k]
-        w = t.size()
-        d = t.decl().kind()
-        ch = t.children()
-        M = 1 << w
-        if z3.is_bv_value(t): r = z3.IntVal(t.as_long())
-        elif z3.is_const(t) and d == z3.Z3_OP_UNINTERPRETED:
-            r = z3.Int(str(t) + '!int'); s.side.append(z3.And(r >= 0, r < M)); s.vars[k] = (t, r)
-        elif d == z3.Z3_OP_BADD:
-            r = s.bv(ch[0])
-            for c in ch[1:]: r = r + s.bv(c)
-            r = r % M
-        elif d == z3.Z3_OP_BSUB: r = (s.bv(ch[0]) - s.bv(ch[1])) % M
-        elif d == z3.Z3_OP_BMUL:
-            r = s.bv(ch[0])
-            for c in ch[1:]: r = r * s.bv(c)
-            r = r % M
-        elif d == z3.Z3_OP_BNEG: r = (-s.bv(ch[0])) % M
-        elif d == z3.Z3_OP_BNOT: r = (M - 1) - s.bv(ch[0])
-        elif d in (z3.Z3_OP_BUDIV, z3.Z3_OP_BUDIV_I):
-            a, b = s.bv(ch[0]), s.bv(ch[1]); r = z3.If(b == 0, z3.IntVal(M - 1), a / b)
-        elif d in (z3.Z3_OP_BUREM, z3.Z3_OP_BUREM_I):
-            a, b = s.bv(ch[0]), s.bv(ch[1]); r = z3.If(b == 0, a, a % b)
-        elif d in (z3.Z3_OP_BSDIV, z3.Z3_OP_BSDIV_I, z3.Z3_OP_BSREM, z3.Z3_OP_BSREM_I):
-            a, b = s.signed(s.bv(ch[0]), w), s.signed(s.bv(ch[1]), w)
-            absq = z3.If(a >= 0, a, -a) / z3.If(b >= 0, b, -b)
-            q = z3.If((a >= 0) == (b >= 0), absq, -absq)
-            if d in (z3.Z3_OP_BSDIV, z3.Z3_OP_BSDIV_I): r = z3.If(b == 0, z3.If(a >= 0, z3.IntVal(M - 1), z3.IntVal(1)), q % M)
-            else: r = z3.If(b == 0, a % M, (a - q * b) % M)
-        elif d == z3.Z3_OP_BSHL and z3.is_bv_value(ch[1]):
-            c = ch[1].as_long(); r = z3.IntVal(0) if c >= w else (s.bv(ch[0]) * (1 << c)) % M
-        elif d == z3.Z3_OP_BLSHR and z3.is_bv_value(ch[1]):
-            c = ch[1].as_long(); r = z3.IntVal(0) if c >= w else s.bv(ch[0]) / (1 << c)
-        elif d == z3.Z3_OP_BASHR and z3.is_bv_value(ch[1]):
-            c = min(ch[1].as_long(), w - 1); r = (s.signed(s.bv(ch[0]), w) / (1 << c)) % M     # floor division = arithmetic shift
-        elif d == z3.Z3_OP_CONCAT:
-            r = z3.IntVal(0)
-            for c in ch: r = r * (1 << c.size()) + s.bv(c)
-        elif d == z3.Z3_OP_EXTRACT:
-            hi, lo = t.params()[0], t.params()[1]
-            r = (s.bv(ch[0]) / (1 << lo)) % (1 << (hi - lo + 1))
-        elif d == z3.Z3_OP_ZERO_EXT: r = s.bv(ch[0])
-        elif d == z3.Z3_OP_SIGN_EXT:
-            w0 = ch[0].size(); a = s.bv(ch[0]); r = z3.If(a >= (1 << (w0 - 1)), a + (M - (1 << w0)), a)
-        elif d == z3.Z3_OP_ITE: r = z3.If(s.boolean(ch[0]), s.bv(ch[1]), s.bv(ch[2]))
-        elif d == z3.Z3_OP_BAND and any(z3.is_bv_value(c) for c in ch) and len(ch) == 2:
-            c, x = (ch[0], ch[1]) if z3.is_bv_value(ch[0]) else (ch[1], ch[0])
-            m = c.as_long()
-            if m & (m + 1) == 0: r = s.bv(x) % (m + 1)                 # low mask
-            elif m == M - 1: r = s.bv(x)
-            else:
-                # contiguous mask ((1<<hi)-1) ^ ((1<<lo)-1)
-                lo = (m & -m).bit_length() - 1; hi = m.bit_length()
-                if m == ((1 << hi) - 1) ^ ((1 << lo) - 1): r = ((s.bv(x) / (1 << lo)) % (1 << (hi - lo))) * (1 << lo)
-                else: raise Untranslatable('bvand with mask %x' % m)
-        elif d in (z3.Z3_OP_FPA_TO_SBV, z3.Z3_OP_FPA_TO_UBV):
-            rm, x = ch
-            xk = x.decl().kind(); xc = x.children()
-            if d == z3.Z3_OP_FPA_TO_SBV and xk == z3.Z3_OP_FPA_TO_FP and len(xc) == 2 and z3.is_bv(xc[1]) and xc[1].size() <= 53:
-                r = s.signed(s.bv(xc[1]), xc[1].size()) % M        # int -> double -> int is exact below 2^53
-            else:
-                args = [s.fp_bits(x)]
-                r = s.uf('fp_to_%sbv%d_%s' % ('s' if d == z3.Z3_OP_FPA_TO_SBV else 'u', w, str(rm).replace('()', '')), 1)(*args)
-                s.side.append(z3.And(r >= 0, r < M))
-        elif d == z3.Z3_OP_FPA_TO_IEEE_BV: r = s.fp_bits(ch[0])
-        elif d == z3.Z3_OP_BV2INT: raise Untranslatable('bv2int')
-        else: raise Untranslatable('bv op %s' % t.decl().name())
+        r = s._fp_val(t)
+        if r[0] == 'i' and not (r[2] >= -s.LIM and r[3] <= s.LIM): raise Untranslatable('integer-valued double may exceed 2^53 (not exact)')
         s.cache[k] = r
         return r
+    def _fp_val(s, t):
+        d = t.decl().kind(); ch = t.children()
+        if z3.is_fp_value(t):
+            bits = z3.simplify(z3.fpToIEEEBV(t)).as_long()
+            f = struct.unpack('<d', struct.pack('<Q', bits))[0] if t.sort().sbits() == 53 else struct.unpack('<f', struct.pack('<I', bits))[0]
+            if f != f or f in (float('inf'), float('-inf')): raise Untranslatable('NaN/inf constant')
+            fr = fractions.Fraction(f)
+            if fr.denominator != 1: raise Untranslatable('non-integer constant %r in exact mode' % f)
+            return 'i', z3.IntVal(fr.numerator), fr.numerator, fr.numerator
+        if d == z3.Z3_OP_FPA_TO_FP and len(ch) == 1:
+            c = ch[0]
+            if c.decl().kind() == z3.Z3_OP_FPA_TO_IEEE_BV: return s.fp_val(c.children()[0])
+            if z3.is_bv_value(c): return s.fp_val(z3.simplify(z3.fpBVToFP(c, t.sort())))
+            if c.decl().kind() == z3.Z3_OP_ITE:
+                x, y = s.fp_val(z3.fpBVToFP(c.children()[1], t.sort())), s.fp_val(z3.fpBVToFP(c.children()[2], t.sort()))
+                if x[0] == 'i' and y[0] == 'i': return 'i', z3.If(s.boolean(c.children()[0]), x[1], y[1]), min(x[2], y[2]), max(x[3], y[3])
+            raise Untranslatable('double taken from raw bits: ' + str(c)[:60])
+        if d == z3.Z3_OP_FPA_TO_FP and len(ch) == 2 and z3.is_bv(ch[1]):
+            v = s.S(s.bvl(ch[1]), ch[1].size()); return ('i',) + tuple(v)
+        if d == z3.Z3_OP_FPA_TO_FP_UNSIGNED and len(ch) == 2 and z3.is_bv(ch[1]):
+            v = s.U(s.bvl(ch[1]), ch[1].size()); return ('i',) + tuple(v)
+        if d in (z3.Z3_OP_FPA_ADD, z3.Z3_OP_FPA_SUB, z3.Z3_OP_FPA_MUL):
+            x, y = s.fp_val(ch[1]), s.fp_val(ch[2])
+            if x[0] != 'i' or y[0] != 'i': raise Untranslatable('arithmetic on a non-integer double in exact mode')
+            if d == z3.Z3_OP_FPA_ADD: return 'i', x[1] + y[1], x[2] + y[2], x[3] + y[3]
+            if d == z3.Z3_OP_FPA_SUB: return 'i', x[1] - y[1], x[2] - y[3], x[3] - y[2]
+            ps = (x[2] * y[2], x[2] * y[3], x[3] * y[2], x[3] * y[3])
+            return 'i', x[1] * y[1], min(ps), max(ps)
+        if d == z3.Z3_OP_FPA_DIV:
+            x, y = s.fp_val(ch[1]), s.fp_val(ch[2])
+            if x[0] != 'i' or y[0] != 'i': raise Untranslatable('division of non-integer doubles in exact mode')
+            a, b = z3.simplify(x[1]), z3.simplify(y[1])
+            if not z3.is_int_value(b): raise Untranslatable('division by a symbolic double in exact mode (tempo must be a run parameter): ' + str(b)[:300])
+            bv_ = b.as_long()
+            if bv_ == 0: raise Untranslatable('division by zero')
+            if bv_ < 0: a, bv_, x = -a, -bv_, ('i', -x[1], -x[3], -x[2])
+            if z3.is_int_value(a):
+                av = a.as_long()
+                if av % bv_ == 0: return 'i', z3.IntVal(av // bv_), av // bv_, av // bv_
+            if not (x[2] > -(1 << 52) and x[3] < (1 << 52)): raise Untranslatable('dividend may exceed 2^52')
+            return 'q', a, bv_, x[2] / bv_, x[3] / bv_
+        if d == z3.Z3_OP_FPA_ROUND_TO_INTEGRAL:
+            rm = str(ch[0]).replace('()', ''); x = s.fp_val(ch[1])
+            if x[0] == 'i': return x
+            _, a, b, lo, hi = x
+            import math
+            if rm in ('RTP', 'roundTowardPositive'): return 'i', -((-a) / b), math.ceil(lo), math.ceil(hi)
+            if rm in ('RTN', 'roundTowardNegative'): return 'i', a / b, math.floor(lo), math.floor(hi)
+            if rm in ('RTZ', 'roundTowardZero'): return 'i', z3.If(a >= 0, a / b, -((-a) / b)), math.trunc(lo) if lo < 0 else math.floor(lo), math.floor(hi) if hi >= 0 else math.trunc(hi)
+            raise Untranslatable('roundToIntegral ' + rm)
+        if d == z3.Z3_OP_FPA_NEG:
+            x = s.fp_val(ch[0])
+            if x[0] == 'i': return 'i', -x[1], -x[3], -x[2]
+            return 'q', -x[1], x[2], -x[4], -x[3]
+        if d == z3.Z3_OP_FPA_ABS:
+            x = s.fp_val(ch[0])
+            if x[0] == 'i': return 'i', z3.If(x[1] >= 0, x[1], -x[1]), 0, max(abs(x[2]), abs(x[3]))
+        if d == z3.Z3_OP_ITE:
+            x, y = s.fp_val(ch[1]), s.fp_val(ch[2])
+            if x[0] == 'i' and y[0] == 'i': return 'i', z3.If(s.boolean(ch[0]), x[1], y[1]), min(x[2], y[2]), max(x[3], y[3])
+        raise Untranslatable('fp op (exact mode) ' + t.decl().name())
+    def fp_cmp(s, d, x, y):
+        """compare two exact values (cross-multiplying quotients by their positive constant denominators)"""
+        ax, bx = (x[1], 1) if x[0] == 'i' else (x[1], x[2])
+        ay, by = (y[1], 1) if y[0] == 'i' else (y[1], y[2])
+        l, r = ax * by, ay * bx
+        return {z3.Z3_OP_FPA_LE: l <= r, z3.Z3_OP_FPA_LT: l < r, z3.Z3_OP_FPA_GE: l >= r, z3.Z3_OP_FPA_GT: l > r, z3.Z3_OP_FPA_EQ: l == r}[d]
 
+    # ------------------------------------------------------------------ booleans
     def boolean(s, t):
         k = ('b', t.get_id())
         if k in s.cache: return s.cache[k]
@@ -149,36 +295,88 @@ class Tr:
         elif d == z3.Z3_OP_IMPLIES: r = z3.Implies(s.boolean(ch[0]), s.boolean(ch[1]))
         elif d == z3.Z3_OP_ITE: r = z3.If(s.boolean(ch[0]), s.boolean(ch[1]), s.boolean(ch[2]))
         elif d in (z3.Z3_OP_EQ, z3.Z3_OP_IFF):
-            if z3.is_bool(ch[0]): r = s.boolean(ch[0]) == s.boolean(ch[1])
-            elif z3.is_bv(ch[0]): r = s.bv(ch[0]) == s.bv(ch[1])
-            elif z3.is_fp(ch[0]): r = s.fp_bits(ch[0]) == s.fp_bits(ch[1])
-            else: raise Untranslatable('eq on ' + str(ch[0].sort()))
-        elif d == z3.Z3_OP_DISTINCT and len(ch) == 2:
-            r = z3.Not(s.boolean(ch[0] == ch[1]))
+            a, b = ch
+            if z3.is_bool(a): r = s.boolean(a) == s.boolean(b)
+            elif z3.is_bv(a) and s.exact_fp and a.decl().kind() == z3.Z3_OP_FPA_TO_IEEE_BV and b.decl().kind() == z3.Z3_OP_FPA_TO_IEEE_BV:
+                r = s.fp_cmp(z3.Z3_OP_FPA_EQ, s.fp_val(a.children()[0]), s.fp_val(b.children()[0]))     # sign of zero not distinguished (stated)
+            elif z3.is_bv(a):
+                w = a.size()
+                r = s.U(s.bvl(a), w)[0] == s.U(s.bvl(b), w)[0]
+            elif z3.is_fp(a): r = s.fp_cmp(z3.Z3_OP_FPA_EQ, s.fp_val(a), s.fp_val(b)) if s.exact_fp else (s.fp_bits(a) == s.fp_bits(b))
+            else: raise Untranslatable('eq on ' + str(a.sort()))
+        elif d == z3.Z3_OP_DISTINCT and len(ch) == 2: r = z3.Not(s.boolean(ch[0] == ch[1]))
         elif d in (z3.Z3_OP_ULEQ, z3.Z3_OP_ULT, z3.Z3_OP_UGEQ, z3.Z3_OP_UGT):
-            a, b = s.bv(ch[0]), s.bv(ch[1])
+            w = ch[0].size(); a, b = s.U(s.bvl(ch[0]), w)[0], s.U(s.bvl(ch[1]), w)[0]
             r = {z3.Z3_OP_ULEQ: a <= b, z3.Z3_OP_ULT: a < b, z3.Z3_OP_UGEQ: a >= b, z3.Z3_OP_UGT: a > b}[d]
         elif d in (z3.Z3_OP_SLEQ, z3.Z3_OP_SLT, z3.Z3_OP_SGEQ, z3.Z3_OP_SGT):
-            w = ch[0].size(); a, b = s.signed(s.bv(ch[0]), w), s.signed(s.bv(ch[1]), w)
+            w = ch[0].size(); a, b = s.S(s.bvl(ch[0]), w)[0], s.S(s.bvl(ch[1]), w)[0]
             r = {z3.Z3_OP_SLEQ: a <= b, z3.Z3_OP_SLT: a < b, z3.Z3_OP_SGEQ: a >= b, z3.Z3_OP_SGT: a > b}[d]
+        elif s.exact_fp and d in (z3.Z3_OP_FPA_LE, z3.Z3_OP_FPA_LT, z3.Z3_OP_FPA_GE, z3.Z3_OP_FPA_GT, z3.Z3_OP_FPA_EQ):
+            r = s.fp_cmp(d, s.fp_val(ch[0]), s.fp_val(ch[1]))
+        elif s.exact_fp and d in (z3.Z3_OP_FPA_IS_NAN, z3.Z3_OP_FPA_IS_INF):
+            s.fp_val(ch[0]); r = z3.BoolVal(False)
+        elif s.exact_fp and d == z3.Z3_OP_FPA_IS_ZERO: r = s.fp_val(ch[0])[1] == 0
         elif d in (z3.Z3_OP_FPA_LE, z3.Z3_OP_FPA_LT, z3.Z3_OP_FPA_GE, z3.Z3_OP_FPA_GT, z3.Z3_OP_FPA_EQ, z3.Z3_OP_FPA_IS_NAN, z3.Z3_OP_FPA_IS_INF,
                    z3.Z3_OP_FPA_IS_ZERO, z3.Z3_OP_FPA_IS_NEGATIVE, z3.Z3_OP_FPA_IS_POSITIVE, z3.Z3_OP_FPA_IS_NORMAL, z3.Z3_OP_FPA_IS_SUBNORMAL):
             args = [s.fp_bits(c) for c in ch]
-            p = s.uf('fpp_' + t.decl().name().replace('.', '_'), len(args))(*args)
-            r = p != 0
+            r = s.uf('fpp_' + t.decl().name().replace('.', '_'), len(args))(*args) != 0
         elif d in (z3.Z3_OP_BSMUL_NO_OVFL, z3.Z3_OP_BUMUL_NO_OVFL, z3.Z3_OP_BSMUL_NO_UDFL):
             w = ch[0].size()
-            if d == z3.Z3_OP_BUMUL_NO_OVFL: r = s.bv(ch[0]) * s.bv(ch[1]) < (1 << w)
+            if d == z3.Z3_OP_BUMUL_NO_OVFL: r = s.U(s.bvl(ch[0]), w)[0] * s.U(s.bvl(ch[1]), w)[0] < (1 << w)
             else:
-                p = s.signed(s.bv(ch[0]), w) * s.signed(s.bv(ch[1]), w)
+                p = s.S(s.bvl(ch[0]), w)[0] * s.S(s.bvl(ch[1]), w)[0]
                 r = (p < (1 << (w - 1))) if d == z3.Z3_OP_BSMUL_NO_OVFL else (p >= -(1 << (w - 1)))
         else: raise Untranslatable('bool op %s' % t.decl().name())
         s.cache[k] = r
         return r
 
-def solve_int(pc, cond, timeout_ms=60000, dump=None):
-    """decide pc /\\ cond in the integer encoding. returns ('sat', {bvvar: value}) | ('unsat', None) | ('unknown', why)"""
-    tr = Tr()
+def ranges_from(pc):
+    """unsigned bounds for BV variables stated at the top level of the path condition (ULE/ULT/UGE/UGT var const)"""
+    rng = {}
+    def note(v, lo=None, hi=None):
+        if not (z3.is_const(v) and v.decl().kind() == z3.Z3_OP_UNINTERPRETED and z3.is_bv(v)): return
+        l0, h0 = rng.get(v.get_id(), (0, (1 << v.size()) - 1))
+        if lo is not None: l0 = max(l0, lo)
+        if hi is not None: h0 = min(h0, hi)
+        rng[v.get_id()] = (l0, h0)
+    def walk(c, neg=False):
+        d = c.decl().kind(); ch = c.children()
+        if d == z3.Z3_OP_AND and not neg:
+            for x in ch: walk(x)
+        elif d == z3.Z3_OP_OR and neg:
+            for x in ch: walk(x, True)
+        elif d == z3.Z3_OP_NOT: walk(ch[0], not neg)
+        elif d in (z3.Z3_OP_ULEQ, z3.Z3_OP_ULT, z3.Z3_OP_UGEQ, z3.Z3_OP_UGT):
+            a, b = ch
+            op = d
+            if neg: op = {z3.Z3_OP_ULEQ: z3.Z3_OP_UGT, z3.Z3_OP_ULT: z3.Z3_OP_UGEQ, z3.Z3_OP_UGEQ: z3.Z3_OP_ULT, z3.Z3_OP_UGT: z3.Z3_OP_ULEQ}[d]
+            if z3.is_bv_value(b):
+                k = b.as_long()
+                if op == z3.Z3_OP_ULEQ: note(a, hi=k)
+                elif op == z3.Z3_OP_ULT: note(a, hi=k - 1)
+                elif op == z3.Z3_OP_UGEQ: note(a, lo=k)
+                else: note(a, lo=k + 1)
+            elif z3.is_bv_value(a):
+                k = a.as_long()
+                if op == z3.Z3_OP_ULEQ: note(b, lo=k)
+                elif op == z3.Z3_OP_ULT: note(b, lo=k + 1)
+                elif op == z3.Z3_OP_UGEQ: note(b, hi=k)
+                else: note(b, hi=k - 1)
+        elif d == z3.Z3_OP_EQ and not neg and z3.is_bv(ch[0]):
+            a, b = ch
+            if z3.is_bv_value(b): note(a, lo=b.as_long(), hi=b.as_long())
+            elif z3.is_bv_value(a): note(b, lo=a.as_long(), hi=a.as_long())
+    for c in pc: walk(c)
+    return rng
+
+def _model_values(tr, m):
+    return {bv_: m.eval(iv, model_completion=True).as_long() for bv_, iv in tr.vars.values()}
+
+def solve_int(pc, cond, timeout_ms=60000, dump=None, var_ranges=None):
+    """decide pc /\\ cond in the integer encoding (FP uninterpreted).
+    returns ('sat', {bvvar: value}) | ('unsat', None) | ('unknown', why) | ('untranslatable', why)"""
+    rr = ranges_from(pc); rr.update(var_ranges or {})
+    tr = Tr(var_ranges=rr)
     try:
         fs = [tr.boolean(c) for c in pc] + [tr.boolean(cond)]
     except Untranslatable as e:
@@ -187,8 +385,33 @@ def solve_int(pc, cond, timeout_ms=60000, dump=None):
     for f in fs + tr.side: sol.add(f)
     if dump is not None: dump.append(sol.to_smt2())
     r = sol.check()
-    if r == z3.sat:
-        m = sol.model()
-        return 'sat', {bv_: m.eval(iv, model_completion=True).as_long() for bv_, iv in tr.vars.values()}
+    if r == z3.sat: return 'sat', _model_values(tr, sol.model())
+    if r == z3.unsat: return 'unsat', None
+    return 'unknown', sol.reason_unknown()
+
+def solve_exact(pc, cond, timeout_ms=60000, stats=None, var_ranges=None):
+    """decide pc /\\ cond with FP translated to exact real arithmetic.  A verdict is only returned if every exactness
+    obligation is itself valid under pc /\\ cond (otherwise ('inexact', ...)); see Tr.fp_real."""
+    rr = ranges_from(pc); rr.update(var_ranges or {})
+    tr = Tr(exact_fp=True, var_ranges=rr)
+    try:
+        fs = [tr.boolean(c) for c in pc] + ([tr.boolean(cond)] if cond is not None else [])
+    except Untranslatable as e:
+        return 'untranslatable', str(e)
+    sol = z3.Solver(); sol.set('timeout', timeout_ms)
+    for f in fs + tr.side: sol.add(f)
+    for ob in tr.oblig:
+        sol.push(); sol.add(z3.Not(ob))
+        r = sol.check()
+        if stats is not None: stats['exactness_queries'] = stats.get('exactness_queries', 0) + 1
+        if r != z3.unsat:
+            bad = {'obligation': str(ob)[:300]}
+            if r == z3.sat: bad.update({str(k): v for k, v in _model_values(tr, sol.model()).items()})
+            sol.pop()
+            return 'inexact', (str(r), bad)
+        sol.pop()
+        sol.add(ob)
+    r = sol.check()
+    if r == z3.sat: return 'sat', _model_values(tr, sol.model())
     if r == z3.unsat: return 'unsat', None
     return 'unknown', sol.reason_unknown()
